@@ -47,6 +47,10 @@ func genMatch(t *rapid.T) MatchCase {
 	n := rapid.IntRange(1, 4).Draw(t, "nsel")
 	for i := 0; i < n; i++ {
 		s := genSel(t, fmt.Sprintf("sel%d", i), paths)
+		if rapid.IntRange(0, 4).Draw(t, fmt.Sprintf("sel%d/doif", i)) == 0 {
+			// the selector is a do_if rule: covers the DoIfChecker branch of the processor
+			s = Sel{Mode: "and", DoIf: genRule(t, fmt.Sprintf("sel%d/rule", i), paths, 0, rapid.IntRange(0, 2).Draw(t, fmt.Sprintf("sel%d/rd", i)), false).Encode()}
+		}
 		c.Sels = append(c.Sels, s)
 		sf := make([]bool, len(s.Conds))
 		for j := range sf {
@@ -137,6 +141,17 @@ var modeByName = map[string]pipeline.MatchMode{
 }
 
 func addProgrammatic(p *pipeline.Pipeline, s Sel) error {
+	if s.DoIf != "" {
+		ch, err := newChecker(s.DoIf)
+		if err != nil {
+			return err
+		}
+		p.AddAction(&pipeline.ActionPluginStaticInfo{
+			PluginStaticInfo: &pipeline.PluginStaticInfo{Type: probeType, Factory: probeFactory, Config: &probeConfig{}},
+			DoIfChecker:      ch,
+		})
+		return nil
+	}
 	var conds pipeline.MatchConditions
 	for _, c := range s.Conds {
 		mc := pipeline.MatchCondition{Field: c.Path}
@@ -167,6 +182,14 @@ func actionsJSON(c MatchCase) ([]byte, error) {
 	var actions []map[string]any
 	for i, s := range c.Sels {
 		a := map[string]any{"type": probeType}
+		if s.DoIf != "" {
+			if !json.Valid([]byte(s.DoIf)) {
+				return nil, fmt.Errorf("do_if is not JSON")
+			}
+			a["do_if"] = json.RawMessage(s.DoIf)
+			actions = append(actions, a)
+			continue
+		}
 		mf := map[string]any{}
 		for j, cond := range s.Conds {
 			key := fieldSelector(cond.Path)
@@ -201,30 +224,12 @@ func actionsJSON(c MatchCase) ([]byte, error) {
 	return json.Marshal(actions)
 }
 
-func runMatch(c MatchCase) *vkit.Outcome {
-	o := vkit.NewOutcome()
-	var evs []*vkit.JNode
-	for _, e := range c.Events {
-		n, err := vkit.ParseJSON([]byte(e))
-		if err != nil || n.Kind != 'o' {
-			o.Class("bad-case")
-			return o
-		}
-		evs = append(evs, n)
-	}
-	if len(c.Sels) == 0 || len(evs) == 0 {
-		o.Class("bad-case")
-		return o
-	}
-	for _, s := range c.Sels {
-		if _, ok := modeByName[s.Mode]; !ok {
-			o.Class("bad-case")
-			return o
-		}
-	}
-
+// observe runs the events through a pipeline carrying one probe action per
+// selector and returns how often each (action, event offset) saw Do.
+// status: "" ok, "bad-case", "rejected-config:<err>", "not-admitted", "timeout".
+func observe(c MatchCase) (called map[[2]int64]int, status string) {
 	registerProbe()
-	rec := &recorder{called: map[[2]int64]int{}, want: len(evs), done: make(chan struct{})}
+	rec := &recorder{called: map[[2]int64]int{}, want: len(c.Events), done: make(chan struct{})}
 	curRec.Store(rec)
 
 	st := fdkit.DefaultSettings()
@@ -245,27 +250,21 @@ func runMatch(c MatchCase) *vkit.Outcome {
 	if c.ViaConfig {
 		raw, err := actionsJSON(c)
 		if err != nil {
-			o.Class("bad-case")
-			return o
+			return nil, "bad-case"
 		}
 		sj, err := simplejson.NewJson(raw)
 		if err != nil {
-			o.Class("bad-case")
-			return o
+			return nil, "bad-case"
 		}
 		if err := fd.SetupActions(p, fd.DefaultPluginRegistry, sj, nil); err != nil {
-			o.Failf(P, "match-valid-config-rejected", "fd.SetupActions rejected %s: %v", raw, err)
-			return o
+			return nil, fmt.Sprintf("rejected-config:fd.SetupActions rejected %s: %v", raw, err)
 		}
-		o.Class("match-route=config")
 	} else {
 		for _, s := range c.Sels {
 			if err := addProgrammatic(p, s); err != nil {
-				o.Class("bad-case")
-				return o
+				return nil, "bad-case"
 			}
 		}
-		o.Class("match-route=programmatic")
 	}
 	p.Start()
 	admitted := true
@@ -283,27 +282,121 @@ func runMatch(c MatchCase) *vkit.Outcome {
 	}
 	p.Stop()
 	if !admitted {
-		o.Class("event-rejected-by-pipeline")
-		return o
+		return nil, "not-admitted"
 	}
 	if timedOut {
-		o.Failf(P, "match-pipeline-did-not-finish", "not all %d events reached the output within 60 s (%d did)", len(evs), rec.commits)
-		return o
+		return nil, "timeout"
 	}
-
 	rec.mu.Lock()
 	defer rec.mu.Unlock()
+	return rec.called, ""
+}
+
+// blameCond re-observes every condition of the failing selector on its own
+// (same mode family, no inversion) and names the first one whose stand-alone
+// decision differs from the documented meaning.
+func blameCond(c MatchCase, s Sel, evs []*vkit.JNode) (sig, detail string) {
+	sub := MatchCase{Events: c.Events, ViaConfig: c.ViaConfig}
+	for range s.Conds {
+		sub.StringForm = append(sub.StringForm, []bool{false})
+	}
+	for _, cd := range s.Conds {
+		sub.Sels = append(sub.Sels, Sel{Mode: s.Mode, Conds: []Cond{cd}})
+	}
+	if len(sub.Sels) > 0 {
+		if called, status := observe(sub); status == "" {
+			for ci, cd := range s.Conds {
+				for ei, ev := range evs {
+					want := evalCond(cd, strings.HasSuffix(s.Mode, "_prefix"), ev)
+					if want == tU {
+						continue
+					}
+					if got := called[[2]int64{int64(ci), int64(ei + 1)}] == 1; got != (want == tT) {
+						kind := "values"
+						if cd.IsRegex {
+							kind = "regexp"
+						}
+						return "match-condition-mismatch:" + s.Mode + ":" + kind,
+							fmt.Sprintf("condition %s alone in mode %s decides %v for event %s, documented meaning gives %v", mustJSON(cd), s.Mode, got, c.Events[ei], want)
+					}
+				}
+			}
+		}
+	}
+	sig = "match-combination-mismatch:" + s.Mode
+	if s.Invert {
+		sig += ":invert"
+	}
+	return sig, "every condition alone agrees with the model; the combination does not"
+}
+
+func runMatch(c MatchCase) *vkit.Outcome {
+	o := vkit.NewOutcome()
+	var evs []*vkit.JNode
+	for _, e := range c.Events {
+		n, err := vkit.ParseJSON([]byte(e))
+		if err != nil || n.Kind != 'o' {
+			o.Class("bad-case")
+			return o
+		}
+		evs = append(evs, n)
+	}
+	if len(c.Sels) == 0 || len(evs) == 0 {
+		o.Class("bad-case")
+		return o
+	}
+	rules := make([]*vkit.JNode, len(c.Sels))
+	for i, s := range c.Sels {
+		if _, ok := modeByName[s.Mode]; !ok {
+			o.Class("bad-case")
+			return o
+		}
+		if s.DoIf != "" {
+			r, err := vkit.ParseJSON([]byte(s.DoIf))
+			if err != nil || r.Kind != 'o' {
+				o.Class("bad-case")
+				return o
+			}
+			rules[i] = r
+		}
+	}
+	called, status := observe(c)
+	switch {
+	case status == "bad-case":
+		o.Class("bad-case")
+		return o
+	case strings.HasPrefix(status, "rejected-config:"):
+		o.Failf(P, "match-valid-config-rejected", "%s", strings.TrimPrefix(status, "rejected-config:"))
+		return o
+	case status == "not-admitted":
+		o.Class("event-rejected-by-pipeline")
+		return o
+	case status == "timeout":
+		o.Failf(P, "match-pipeline-did-not-finish", "not all %d events reached the output within 60 s", len(evs))
+		return o
+	}
+	if c.ViaConfig {
+		o.Class("match-route=config")
+	} else {
+		o.Class("match-route=programmatic")
+	}
+
 	nT, nF, nU := 0, 0, 0
 	anyNontrivial := false
 	for ai, s := range c.Sels {
 		selT, selF := 0, 0
 		for ei, ev := range evs {
-			calls := rec.called[[2]int64{int64(ai), int64(ei + 1)}]
+			calls := called[[2]int64{int64(ai), int64(ei + 1)}]
 			if calls > 1 {
 				o.Failf(P, "match-action-called-twice", "action %d called %d times for event %s", ai, calls, c.Events[ei])
 				return o
 			}
-			want := evalSel(s, ev)
+			var want tv
+			if s.DoIf != "" {
+				want = evalRule(rules[ai], ev)
+			} else {
+				want = evalSel(s, ev)
+			}
 			switch want {
 			case tU:
 				nU++
@@ -316,10 +409,26 @@ func runMatch(c MatchCase) *vkit.Outcome {
 				selF++
 			}
 			if (calls == 1) != (want == tT) {
-				o.Failf(P, matchSig(s, ev), "match_fields decision differs from the documented meaning: selector %s (route config=%v) event %s: Do called = %v, naive evaluator = %v",
-					mustJSON(s), c.ViaConfig, c.Events[ei], calls == 1, want)
+				if s.DoIf != "" {
+					sig, detail := blame(rules[ai], ev, c.Events[ei])
+					o.Failf(P, sig, "do_if decision observed through the pipeline differs from the documented meaning: rule %s (route config=%v) event %s: Do called = %v, naive evaluator = %v; %s",
+						s.DoIf, c.ViaConfig, c.Events[ei], calls == 1, want, detail)
+					return o
+				}
+				sig, detail := blameCond(c, s, evs)
+				o.Failf(P, sig, "match_fields decision differs from the documented meaning: selector %s (route config=%v) event %s: Do called = %v, naive evaluator = %v; %s",
+					mustJSON(s), c.ViaConfig, c.Events[ei], calls == 1, want, detail)
 				return o
 			}
+		}
+		if s.DoIf != "" {
+			o.Class("match-selector=do_if")
+			var st ruleStats
+			statRule(rules[ai], 1, &st)
+			if len(st.ops) >= 2 && selT > 0 && selF > 0 {
+				anyNontrivial = true
+			}
+			continue
 		}
 		kinds := map[string]bool{}
 		for _, cd := range s.Conds {
@@ -358,34 +467,6 @@ func runMatch(c MatchCase) *vkit.Outcome {
 		o.Class("match-nontrivial")
 	}
 	return o
-}
-
-// matchSig names the failing shape: mode, inversion, and the kind of the first
-// condition whose stand-alone value differs from what the action did is not
-// observable black-box, so the shape is the set of condition kinds.
-func matchSig(s Sel, ev *vkit.JNode) string {
-	hasRe, hasVals := false, false
-	for _, c := range s.Conds {
-		if c.IsRegex {
-			hasRe = true
-		} else {
-			hasVals = true
-		}
-	}
-	shape := "no-conditions"
-	switch {
-	case hasRe && hasVals:
-		shape = "regexp+values"
-	case hasRe:
-		shape = "regexp"
-	case hasVals:
-		shape = "values"
-	}
-	sig := "match-mismatch:" + s.Mode + ":" + shape
-	if s.Invert {
-		sig += ":invert"
-	}
-	return sig
 }
 
 func mustJSON(v any) string {
